@@ -43,5 +43,10 @@ def gen_harness(facts, outdir):
     sinks = [h for h, v in facts["visitor"].items() if v["pure"]]
     w("hooks.def", "".join("HOOK(%s)\n" % h for h in hooks if h not in sinks))
     w("sinks.def", "".join("SINK(%s)\n" % h for h in sinks))
+    def cq(x):
+        return '"' + x.replace("\\", "\\\\").replace('"', '\\"') + '"'
+    w("specwords.def", "".join("SPECWORD(%s)\n" % cq(x) for x in facts["words"]["std_specifiers"]["rows"]))
+    w("qualwords.def", "".join("QUALWORD(%s)\n" % cq(x) for x in facts["words"]["std_qualifiers"]["rows"]))
+    w("knownwords.def", "".join("KNOWNWORD(%s)\n" % cq(x) for x in facts["words"]["known_words"]["rows"]))
     leaves = [k for k, v in facts["reflect"].items() if v["is_node"] and v["code"] >= 0]
     w("leaves.def", "".join("LEAF(%s)\n" % k for k in leaves))
